@@ -344,7 +344,7 @@ func scenario(c *run.Ctx, idx int) {
 // fixedScenarios are the regression witnesses of the known findings; they run in every tier
 // and for every seed.
 func fixedScenarios(c *run.Ctx) {
-	for variant := 0; variant < 2; variant++ {
+	for variant := 0; variant < 4; variant++ {
 		r := run.NewRng(7, 99, uint64(variant))
 		cl := scn.NewCluster(r, fx.WorldCfg{Deputies: 3, Users: 6, SlotMs: 3000}, 4, scn.DefaultCfg())
 		g := cl.G
@@ -383,6 +383,26 @@ func fixedScenarios(c *run.Ctx) {
 			sub2 := g.B.Transfer(u2, u1.Addr, fx.LEMO(900000000), exp())
 			box := g.B.Box(u1, types.Transactions{sub1, sub2}, exp())
 			step([]scn.Cand{g.C(box, "box-failing-sub", "discard"), g.C(g.B.Transfer(u2, s, fx.LEMO(1), exp()+1), "transfer", "ok")})
+		}
+		if ok && variant >= 2 {
+			// a storage slot that is non-empty in the committed state is cleared by an included call; a discarded box behind
+			// it (variant 2) or before it (variant 3) writes the same slot and is rolled back
+			s := g.ByKind("store")
+			u3 := cl.W.Users[3]
+			if step([]scn.Cand{g.C(g.B.Call(u1, s, big.NewInt(0), 200000, append(fx.Word(1), fx.Word(5)...), exp()), "call-store", "ok")}) {
+				clear := g.C(g.B.Call(u1, s, big.NewInt(0), 200000, append(fx.Word(1), fx.Word(0)...), exp()), "call-store-clear", "ok")
+				sub1 := g.B.Call(u2, s, big.NewInt(0), 200000, append(fx.Word(1), fx.Word(7)...), exp()+1)
+				sub2 := g.B.Transfer(u3, u1.Addr, fx.LEMO(900000000), exp()+1)
+				box := g.C(g.B.Box(u3, types.Transactions{sub1, sub2}, exp()+1), "box-failing-sub", "discard")
+				pay := g.C(g.B.Transfer(u2, s, fx.LEMO(1), exp()+2), "transfer", "ok")
+				if variant == 2 {
+					step([]scn.Cand{clear, box, pay})
+				} else {
+					step([]scn.Cand{box, clear, pay})
+				}
+				// and the slot is used again afterwards
+				step([]scn.Cand{g.C(g.B.Call(u2, s, big.NewInt(0), 200000, append(fx.Word(1), fx.Word(9)...), exp()), "call-store", "ok")})
+			}
 		}
 		cl.Close()
 	}
